@@ -45,6 +45,25 @@ theorem forced_does_not_wait (s : St) (k : Nat) (rest : List (Nat × Bool)) (hq 
 example : (run (init { n := 1, timeout := 5000, svcs := fun _ => {} }) [.conn 0, .conn 0, .poll 9, .stop false, .poll 1]).finished = true ∧
     Ev.reply 0 false ∈ (run (init { n := 1, timeout := 5000, svcs := fun _ => {} }) [.conn 0, .conn 0, .poll 9, .stop false, .poll 1]).log := by decide
 
+/-- **A `Stop` in the channel is taken before anything else** — in particular before the worker can
+notice that its connection channel was closed: after the poll, stop `k` has been answered, or its
+reply sender is held by the `Shutdown` state of the still-running worker (or the W1 underflow fault). -/
+theorem stop_is_taken_first (s : St) (k : Nat) (g : Bool) (rest : List (Nat × Bool)) (hq : s.stopQ = (k, g) :: rest)
+    (hfl : s.fault = none) (hcov : s.queue.length ≤ s.raw) (h0 : s.raw ≠ 0) (hfin : s.finished = false) (f : Nat) :
+    (∃ b, .reply k b ∈ (pollW (f + 1) s).log ∧ (pollW (f + 1) s).finished = true) ∨
+    (∃ t sf, (pollW (f + 1) s).state = .shutdown t sf k ∧ (pollW (f + 1) s).finished = false) := by
+  by_cases h1 : Src.wcTotal s.raw = 0
+  · left; rw [pollW_stop_idle hq h0 h1]
+    exact ⟨true, by rw [finish_log]; simp [emit], rfl⟩
+  · cases g with
+    | false =>
+      left; rw [pollW_stop_forced hq h0 h1]
+      exact ⟨false, by rw [finish_log]; simp [emit, shutdownSvcs], rfl⟩
+    | true =>
+      right
+      obtain ⟨a, b, _⟩ := graceful_enters_shutdown_lemma hq h1 hfl hcov f
+      exact ⟨_, _, a, b.trans hfin⟩
+
 /-- **Graceful stop with connections in progress**: the poll that takes the `Stop` replies nothing
 and does not finish; the worker is in `Shutdown` with its first tick `Src.wkTickFirstMs` ahead and
 `start_from = now`; every queued (unreceived) connection has been *released* — the log gains exactly
@@ -180,17 +199,28 @@ theorem stop_run_shape (s : St) (pre post : List Cmd) (g : Bool) (comp : Option 
   runLoop_stop_shape s pre post g comp h1 h2 h3 h4
 
 /-- **Graceful waits (server)**: for every worker `w`, the events of a graceful `Stop` contain, in this
-order, `stopWorker w`, `awaitWorker w`, `joinAccept`, the completion ack. -/
+order, `stopWorker w`, the `Stop` wake-up of the accept thread, `awaitWorker w`, `joinAccept`, the completion ack. -/
 theorem graceful_waits_server (workers : List Nat) (a w : Nat) (hw : w ∈ workers) :
-    [Ev.wake .stop, .stopWorker w true, .awaitWorker w, .joinAccept, .ack a].Sublist (stopEvs workers true (some a)) := by
+    [Ev.stopWorker w true, .wake .stop, .awaitWorker w, .joinAccept, .ack a].Sublist (stopEvs workers true (some a)) := by
   unfold stopEvs ackEv
   simp only [if_true]
   have h1 : [Ev.stopWorker w true].Sublist (workers.map (Ev.stopWorker · true)) :=
     List.singleton_sublist.2 (List.mem_map.2 ⟨w, hw, rfl⟩)
   have h2 : [Ev.awaitWorker w].Sublist (workers.map Ev.awaitWorker) :=
     List.singleton_sublist.2 (List.mem_map.2 ⟨w, hw, rfl⟩)
-  have := (((List.Sublist.refl [Ev.wake .stop]).append h1).append h2).append (List.Sublist.refl [Ev.joinAccept, Ev.ack a])
+  have := ((h1.append (List.Sublist.refl [Ev.wake .stop])).append h2).append (List.Sublist.refl [Ev.joinAccept, Ev.ack a])
   simpa using this
+
+/-- **Every worker has its `Stop` before the accept thread is told to stop** (F7): the `Stop` handling
+starts with `stopWorker w` for every worker, and no `stopWorker` comes after the accept thread's wake-up.
+So when the accept thread exits and thereby closes the workers' connection channels, `Stop` is already
+in every worker's stop channel — and a worker looks at that channel first (`stop_is_taken_first`). -/
+theorem workers_stopped_before_accept (workers : List Nat) (g : Bool) (comp : Option Nat) :
+    ∃ rest, stopEvs workers g comp = workers.map (.stopWorker · g) ++ .wake .stop :: rest ∧
+      ∀ w g', Ev.stopWorker w g' ∉ rest := by
+  refine ⟨(if g then workers.map .awaitWorker else []) ++ [.joinAccept] ++ ackEv comp, by simp [stopEvs], ?_⟩
+  intro w g'
+  cases g <;> cases comp <;> simp [ackEv]
 
 /-- **Forced does not wait (server)**: a forced `Stop` waits for no worker — only for the accept thread. -/
 theorem forced_does_not_wait_server (workers : List Nat) (comp : Option Nat) (w : Nat) :
@@ -207,7 +237,7 @@ theorem no_dispatch_after_completion (s : St) (pre post : List Cmd) (g : Bool) (
     ∃ l1 l2, (runLoop s (pre ++ .stop g (some a) :: post)).log = l1 ++ [.joinAccept, .ack a] ++ l2 ++ [.returned] ∧
       Ev.joinAccept ∉ l2 ∧ Ev.returned ∉ l2 := by
   obtain ⟨_, hl⟩ := runLoop_stop_shape s pre post g (some a) h1 h2 h3 h4
-  refine ⟨(runLoop s pre).log ++ ([.wake .stop] ++ s.workers.map (.stopWorker · g) ++ (if g then s.workers.map .awaitWorker else [])),
+  refine ⟨(runLoop s pre).log ++ (s.workers.map (.stopWorker · g) ++ [.wake .stop] ++ (if g then s.workers.map .awaitWorker else [])),
     droppedAcks post, ?_, ?_, ?_⟩
   · rw [hl]; simp [stopEvs, ackEv]
   · simp [droppedAcks]
@@ -289,10 +319,10 @@ theorem dropped_future_still_stops (n : Nat) (before after : List Call) (g : Boo
   · exact Or.inr h
 
 example : (serve 2 [.pause, .stop true, .resume, .stop false]).log =
-    [.wake .pause, .ack 0, .wake .stop, .stopWorker 0 true, .stopWorker 1 true, .awaitWorker 0, .awaitWorker 1, .joinAccept, .ack 1,
+    [.wake .pause, .ack 0, .stopWorker 0 true, .stopWorker 1 true, .wake .stop, .awaitWorker 0, .awaitWorker 1, .joinAccept, .ack 1,
      .ackDropped 2, .ackDropped 3, .returned] := by decide
-example : (serve 1 [.signal .Int]).log = [.wake .stop, .stopWorker 0 false, .joinAccept, .returned] := by decide
-example : (serve 1 [.signal .Term]).log = [.wake .stop, .stopWorker 0 true, .awaitWorker 0, .joinAccept, .returned] := by decide
+example : (serve 1 [.signal .Int]).log = [.stopWorker 0 false, .wake .stop, .joinAccept, .returned] := by decide
+example : (serve 1 [.signal .Term]).log = [.stopWorker 0 true, .wake .stop, .awaitWorker 0, .joinAccept, .returned] := by decide
 
 end server
 end ActixNet.C06
